@@ -135,7 +135,10 @@ type c10Model struct {
 	how map[int]string
 }
 
-func c10Delay(d int64) time.Duration { return time.Duration(d) * c10Interval / 1000 }
+// c10Delay converts milli-intervals to a duration without overflowing for delays of billions of ticks.
+func c10Delay(d int64) time.Duration {
+	return time.Duration(d/1000)*c10Interval + time.Duration(d%1000)*c10Interval/1000
+}
 
 // runC10 executes one scenario against the real wheel and the model. It returns
 // the number of fire events observed.
@@ -409,6 +412,9 @@ func c10RandomScenario(r interface{ Intn(int) int }, slotsChoices []int) c10Scen
 	if slots >= 100 {
 		maxTicksDelay = slots*2 + 50
 	}
+	interval := c10Intervals[r.Intn(len(c10Intervals))]
+	// huge delays only where (2^32+3) revolutions of this wheel still fit a time.Duration
+	huge := r.Intn(4) == 0 && float64(interval)*float64(slots)*float64(1<<32+4) < float64(1<<62)
 	var ops []c10Op
 	v := 10
 	for i := 0; i < nops; i++ {
@@ -417,6 +423,12 @@ func c10RandomScenario(r interface{ Intn(int) int }, slotsChoices []int) c10Scen
 		d := int64(1+r.Intn(maxTicksDelay))*1000 + int64(r.Intn(1000))
 		if r.Intn(4) == 0 {
 			d = int64(1+r.Intn(3)) * 1000
+		}
+		if huge && r.Intn(12) == 0 {
+			// billions of ticks: a revolution count around 2^31 / 2^32 (never due within the history, must stay
+			// pending, movable, removable and be handed to Drain)
+			rev := []int64{1<<31 - 1, 1 << 31, 1<<31 + 1, 1 << 32, 1<<32 + 1, 1<<32 + 2, 3 << 31}[r.Intn(7)]
+			d = (rev*int64(slots)+int64(r.Intn(slots)))*1000 + int64(r.Intn(1000))
 		}
 		switch {
 		case x < 40:
@@ -457,13 +469,13 @@ func c10RandomScenario(r interface{ Intn(int) int }, slotsChoices []int) c10Scen
 			ops = append(ops, c10Op{Op: "tick"})
 		}
 	}
-	return c10Scenario{Slots: slots, IntervalNs: c10Intervals[r.Intn(len(c10Intervals))], Ops: ops}
+	return c10Scenario{Slots: slots, IntervalNs: interval, Ops: ops}
 }
 
 // TestVerifC10Random: seeded random histories incl. multi-revolution delays,
 // repeated moves, removes, invalid arguments, Drain and Stop.
 func TestVerifC10Random(t *testing.T) {
-	m := vk.New(t, "C10", "seeded random histories (30-200 ops) of Set/Move/Remove/invalid ops/ticks over 3-5 keys, slots in {1,2,3,5,8,300}, delays 1..3.5 revolutions with sub-interval remainders, ending in run-out, Drain+ticks and/or Stop; non-trivial = at least one task fired or was drained")
+	m := vk.New(t, "C10", "seeded random histories (30-200 ops) of Set/Move/Remove/invalid ops/ticks over 3-5 keys, slots in {1,2,3,5,8,300}, delays 1..3.5 revolutions with sub-interval remainders (and, in a quarter of the small-interval histories, delays of 2^31-1 .. 3*2^31 revolutions that must stay pending), ending in run-out, Drain+ticks and/or Stop; non-trivial = at least one task fired or was drained")
 	defer m.Done()
 	n := vk.N(2500, 150000)
 	r := m.Rand("random")
@@ -485,6 +497,9 @@ func TestVerifC10Random(t *testing.T) {
 		}
 		for _, op := range sc.Ops {
 			kinds[op.Op]++
+			if op.D > 1<<40 {
+				kinds["with-delay-of-2^31-or-more-revolutions"]++
+			}
 		}
 		m.Case(c10Digest(sc), f > 0)
 		m.Count("fires", int64(f))
